@@ -240,7 +240,7 @@ def run(ctx):
             ctx.violation("input rejected by Trace_Strict: %s" % v["v"], case)
     # 3. the same clauses on long-lived objects: a non-strict and a strict parser object fed the same input sequence
     seqs = []
-    for _ in range(150 if ctx.quick else 2500):
+    for _ in range(400 if ctx.quick else 4000):
         seq = []
         for _k in range(ctx.rng.randint(3, 8)):
             r = ctx.rng.random()
